@@ -52,7 +52,7 @@ impl Prop for C05 {
         vec!["requests whose own fragments would wrap past id 255 are outside the domain (C20 covers them)".into()]
     }
     fn cases(&self, tier: Tier) -> u64 {
-        tier.pick(12_000, 250_000)
+        tier.pick(120000, 1200000)
     }
     fn choice_len(&self) -> usize {
         4096
